@@ -78,11 +78,11 @@ func (h capture) WithGroup(string) slog.Handler      { return h }
 // ---------- underlying writer ----------
 
 type uw struct {
-	hdr    http.Header
-	wrote  bool
-	status int
-	info   []int
-	body   []byte
+	hdr     http.Header
+	wrote   bool
+	status  int
+	info    []int
+	body    []byte
 	flushes int
 }
 
@@ -721,11 +721,12 @@ func main() {
 	seen := map[string]bool{}
 	nontrivial := 0
 	var pending []tcase
+	emitTag := "" // distinguishes cases whose Coq term is the same but that exercise different API entry points
 	emit := func(term, human string, nontriv bool) bool {
-		if seen[term] {
+		if seen[term+emitTag] {
 			return false
 		}
-		seen[term] = true
+		seen[term+emitTag] = true
 		pending = append(pending, tcase{term, human})
 		if nontriv {
 			nontrivial++
@@ -972,8 +973,22 @@ func main() {
 		}()
 		return u.status, string(u.body), panicked
 	}
+	// write helpers: which entry point, where the panic comes from (0 none, 1 a middleware constructor that
+	// panics while the route is built, 2 a nil RouteOption), and whether the helper is called directly or
+	// from a request handler under Recovery
+	type helperVariant struct {
+		api string
+		src int
+		ctx int
+	}
+	var hv helperVariant
+	const nilOptionPanic = 998
 	oneTxn := func(kind string, initial [][2]string, ops []op, ending int, pid int) {
-		f, err := fox.New()
+		var gopts []fox.GlobalOption
+		if kind == "THelper" && hv.ctx == 1 {
+			gopts = append(gopts, fox.WithMiddleware(fox.CustomRecoveryWithLogHandler(capture{&world{}}, fox.DefaultHandleRecovery)))
+		}
+		f, err := fox.New(gopts...)
 		hx.Fatal(err)
 		for _, r := range initial {
 			_, err := f.Handle(r[0], r[1], versioned(0))
@@ -1015,6 +1030,9 @@ func main() {
 							id = uint64(i)
 						}
 					}
+					if _, ok := x.(runtime.Error); ok && kind == "THelper" && hv.src == 2 {
+						id = nilOptionPanic
+					}
 					outc = "(TPanic " + hx.N(id) + ")"
 				}
 			}()
@@ -1039,14 +1057,77 @@ func main() {
 				}
 			default:
 				o := ops[0]
-				if o.kind == 0 {
-					if ending == 0 {
-						_, err = f.Handle(o.method, o.pattern, versioned(1), fox.WithMiddleware(func(next fox.HandlerFunc) fox.HandlerFunc { panic(txnPanicVals[pid]) }))
-					} else {
-						_, err = f.Handle(o.method, o.pattern, versioned(1))
+				call := func(rt *fox.Router) error {
+					var opts []fox.RouteOption
+					switch hv.src {
+					case 1:
+						opts = append(opts, fox.WithMiddleware(func(next fox.HandlerFunc) fox.HandlerFunc { panic(txnPanicVals[pid]) }))
+					case 2:
+						opts = append(opts, nil)
 					}
+					var e error
+					switch hv.api {
+					case "Handle":
+						_, e = rt.Handle(o.method, o.pattern, versioned(1), opts...)
+					case "Update":
+						_, e = rt.Update(o.method, o.pattern, versioned(1), opts...)
+					case "Delete":
+						_, e = rt.Delete(o.method, o.pattern)
+					case "HandleRoute", "UpdateRoute":
+						route, e2 := rt.NewRoute(o.pattern, versioned(1), opts...)
+						if e2 != nil {
+							return e2
+						}
+						if hv.api == "HandleRoute" {
+							e = rt.HandleRoute(o.method, route)
+						} else {
+							e = rt.UpdateRoute(o.method, route)
+						}
+					}
+					return e
+				}
+				if hv.ctx == 0 {
+					err = call(f)
 				} else {
-					_, err = f.Delete(o.method, o.pattern)
+					// from a request handler under Recovery: the panic is contained there; we note its value on the way
+					var seenPanic any
+					var callErr error
+					_, herr := f.Handle("HEAD", "/admin", func(c fox.Context) {
+						defer func() {
+							if x := recover(); x != nil {
+								seenPanic = x
+								panic(x)
+							}
+						}()
+						callErr = call(c.Fox())
+					})
+					hx.Fatal(herr)
+					code, _, pan := serveOne(f, "HEAD", "/admin")
+					_, derr := func() (r *fox.Route, e error) {
+						done := make(chan error, 1)
+						go func() { _, e := f.Delete("HEAD", "/admin"); done <- e }()
+						select {
+						case e = <-done:
+						case <-time.After(400 * time.Millisecond):
+							e = errors.New("delete of the admin route blocked")
+						}
+						return nil, e
+					}()
+					_ = derr
+					if seenPanic != nil {
+						isAbort := same(seenPanic, any(http.ErrAbortHandler)) // re-raised by Recovery by design
+						if pan != isAbort {
+							panic(fmt.Sprintf("Recovery: escaped=%v for panic value %v", pan, seenPanic))
+						}
+						if !pan && code != 500 {
+							panic(fmt.Sprintf("recovered panic but status %d", code))
+						}
+						panic(seenPanic) // classified by the deferred function below
+					}
+					if pan {
+						panic("ServeHTTP panicked although the helper did not")
+					}
+					err = callErr
 				}
 			}
 			if err != nil {
@@ -1058,6 +1139,7 @@ func main() {
 		for m, r := range f.Iter().All() {
 			viaAll[key(m, r.Pattern())] = true
 		}
+		delete(viaAll, "HEAD /admin") // only present if its removal blocked: reported through write-ok
 		agree := true
 		var routes []string
 		var routesH []string
@@ -1098,8 +1180,19 @@ func main() {
 		for _, r := range initial {
 			ih = append(ih, key(r[0], r[1]))
 		}
+		label := kind
+		if kind == "THelper" {
+			label = fmt.Sprintf("THelper[Router.%s, %s, %s]", hv.api, []string{"no panic", "middleware constructor panics", "nil RouteOption"}[hv.src], []string{"called directly", "called from a handler under Recovery"}[hv.ctx])
+		}
 		human := fmt.Sprintf("%s initial=[%s] fn=[%s] then %s => outcome=%s live-routes=[%s] All/Has/requests-agree=%v followup-ok=%v write-ok=%v", kind, strings.Join(ih, ", "), strings.Join(oh, "; "),
 			[]string{fmt.Sprintf("panic(value#%d)", pid), "return error / Abort()", "return nil / Commit()"}[ending], outc, strings.Join(routesH, ", "), agree, fu, wr)
+		human = label + human[len(kind):]
+		if kind == "THelper" {
+			emitTag = label
+			st.Count("helper:" + hv.api + []string{"", "+panicking-middleware", "+nil-option"}[hv.src] + []string{"", " (in handler)"}[hv.ctx])
+		} else {
+			emitTag = ""
+		}
 		if emit(term, human, len(ops) > 0 || ending != 2) {
 			st.Count("txn:" + kind)
 			st.Count("txn-ending:" + []string{"panic", "error-or-abort", "commit"}[ending])
@@ -1176,15 +1269,31 @@ func main() {
 		}
 		oneTxn(hx.Pick(rnd, []string{"TUpdates", "TManual", "TUpdates", "TView"}), initials[rnd.Intn(3)], ops, rnd.Intn(3), rnd.Intn(len(txnPanicVals)))
 	}
-	for _, in := range initials { // write helpers
-		for _, r := range [][2]string{{"GET", "/a"}, {"PURGE", "/b"}, {"GET", "/b"}} {
-			for pid := range txnPanicVals {
-				oneTxn("THelper", in, []op{{kind: 0, method: r[0], pattern: r[1]}}, 0, pid)
+	for ii, in := range initials { // write helpers: every entry point x panic source x calling context
+		for ri, r := range [][2]string{{"GET", "/a"}, {"PURGE", "/b"}, {"GET", "/b"}} {
+			for ai, api := range []string{"Handle", "Update", "Delete", "HandleRoute", "UpdateRoute"} {
+				for ctx := 0; ctx < 2; ctx++ {
+					for src := 0; src < 3; src++ {
+						if api == "Delete" && src != 0 {
+							continue // Delete runs no user code
+						}
+						hv = helperVariant{api, src, ctx}
+						k := map[string]int{"Handle": 0, "HandleRoute": 0, "Update": 1, "UpdateRoute": 1, "Delete": 2}[api]
+						o := op{kind: k, method: r[0], pattern: r[1]}
+						switch src {
+						case 0:
+							oneTxn("THelper", in, []op{o}, 2, 0)
+						case 1:
+							oneTxn("THelper", in, []op{o}, 0, (ii+ri+ai+ctx)%len(txnPanicVals))
+						default:
+							oneTxn("THelper", in, []op{o}, 0, nilOptionPanic)
+						}
+					}
+				}
 			}
-			oneTxn("THelper", in, []op{{kind: 0, method: r[0], pattern: r[1]}}, 2, 0)
-			oneTxn("THelper", in, []op{{kind: 2, method: r[0], pattern: r[1]}}, 2, 0)
 		}
 	}
+	emitTag = ""
 
 	if len(st.Samples) == 0 {
 		st.Samples = append(st.Samples, "(no sample drawn)")
